@@ -290,6 +290,15 @@ def fam_rctx(tier, seed):
     out.append(Witness("rctx_three_nofree", "rctx", Def(top=[
         Rule(S("ab"), ctx=C("x")), Rule(S("ab"), ctx=S("yy")), Rule(S("ab"), ctx=EOI), Rule(C("a")),
         Rule(C("x")), Rule(C("y"))])))
+    # the same, in a state that has further transitions (save chain instead of immediate accept)
+    out.append(Witness("rctx_two_live", "rctx", Def(top=[
+        Rule(C("a"), ctx=C("b")), Rule(C("a"), ctx=SET("b", "c")), Rule(C("a")), Rule(S("ab")),
+        Rule(C("b")), Rule(C("c"))])))
+    out.append(Witness("rctx_three_live_nofree", "rctx", Def(top=[
+        Rule(S("ab"), ctx=C("x")), Rule(S("ab"), ctx=SET(("w", "y"))), Rule(S("ab"), ctx=alt(C("x"), EOI)),
+        Rule(S("abx")), Rule(C("a")), Rule(C("x")), Rule(C("w")), Rule(C("y"))])))
+    out.append(Witness("rctx_two_live_loop", "rctx", Def(top=[
+        Rule(plus(C("a")), ctx=S("ab")), Rule(plus(C("a")), ctx=C("a")), Rule(C("a")), Rule(C("b"))])))
     out.append(Witness("rctx_shorter_survives", "rctx", Def(top=[
         Rule(C("a")), Rule(S("aa"), ctx=C("!")), Rule(S("aaa"), ctx=C("?")), Rule(C("!")), Rule(C("?"))])))
     out.append(Witness("rctx_in_rulesets", "rctx", Def(sets=[
